@@ -22,6 +22,7 @@ type deferRec struct {
 }
 
 type Activation struct {
+	hintExclusive bool // set by hintedTypes: the dyntype hint excludes every other implementation
 	t       *Task
 	fn      *ssa.Function
 	env     map[ssa.Value]Val
@@ -395,6 +396,10 @@ func (t *Task) funcIDByName(full string) string {
 		t.nfn++
 		fi := t.declareFun("$fnidx", []string{"Int"}, "Int")
 		t.lateFacts = append(t.lateFacts, sAnd("(> "+c+" 0)", sEq(sApp(t.fkind(), c), "1"), sEq(sApp(fi, c), sInt(int64(t.nfn)))))
+		t.fnNames = append(t.fnNames, full)
+		if t.useReentr {
+			t.reentrantFact(full)
+		}
 	}
 	return c
 }
@@ -1386,4 +1391,22 @@ func (a *Activation) panicSite(in *ssa.Panic, st *State) {
 	name := fmt.Sprintf("%s#panic[%d]", fullName(a.fn), a.arith["panic"])
 	o := t.oblige("panic", name, "", st.pc, tFalse, posStr(t.eng.fset, in.Pos()), "explicit panic")
 	o.Fn = fullName(a.fn)
+}
+
+// reentrantFact: whether the code named full may run concurrently with itself on the same captured state. True only
+// when its contract says so ('reentrant' clause); false for every other function under contract (its state is
+// confined to one goroutine); unconstrained for code without a contract.
+func (t *Task) reentrantFact(full string) {
+	cons := t.eng.con.Funcs[full]
+	if len(cons) == 0 {
+		return
+	}
+	val := tFalse
+	for _, c := range cons {
+		if c.hasClause("reentrant") {
+			val = tTrue
+		}
+	}
+	f := t.declareFun("$reentrantfn", []string{"Int"}, "Bool")
+	t.lateFacts = append(t.lateFacts, sEq(sApp(f, t.declare("fn:"+full, "Int")), val))
 }
